@@ -10,9 +10,9 @@ CLAIMED = {
  "C09": dict(
    engine="shuttle-on-rayon-core-sim",
    category="exploration",
-   technique="deterministic simulation: real walrus+rayon on a simulated rayon-core under seeded shuttle schedules (pool width, steals, in-task preemption), byte-equality oracle against the serial build linked into the same process",
-   text="Seeded search over simulated schedules of the three parallel sites (function-body parse, function emit, data-count any()). Every schedule decision and steal draw is owned and recorded; a failure is minimised and replays exactly from its file. A clean batch is evidence, not proof: interleavings are task-granular plus the scheduling points walrus offers through `log` and `on_instr_loc`.",
-   note="Trusted: shuttle 0.9.3's coroutine engine; the rayon-core stub's fork-join semantics (validated against the real pool natively and under Miri in the thorough tier); wasm-encoder/wat for inputs. Pool widths 1..16 only.",
+   technique="deterministic simulation: real walrus+rayon on a simulated rayon-core under seeded, recorded schedules (pool width, steals, preemption before every atomic operation, at control-flow edges and at log points inside the parallel closures; futex waits become yields), byte-equality / decision / panic-parity / deadlock oracles against the serial build linked into the same process",
+   text="Seeded search over simulated schedules of the three parallel sites (function-body parse, function emit, data-count any()). Every schedule decision and steal draw is owned and recorded; a failure is minimised and replays exactly from its file. Scheduling points: task boundaries, the `log` and `on_instr_loc` seams, every atomic operation executed by code generated in the parallel build (ThreadSanitizer pass restricted to atomics, runtime defined by the harness), every k-th control-flow edge (SanitizerCoverage); blocking std primitives yield to the simulated scheduler instead of parking, and a run in which no task can move is reported as a deadlock. A clean batch is evidence, not proof.",
+   note="Trusted: shuttle 0.9.3's coroutine engine; the rayon-core stub's fork-join semantics (validated against the real pool natively and under Miri in the thorough tier); LLVM's sancov and tsan passes as instrumentation only (no sanitizer runtime is linked); wasm-encoder/wat for inputs. Pool widths 1..16 only. Sequentially consistent interleavings only: weak-memory reorderings of atomics are left to the Miri leg.",
    design_ref="DESIGN.md sections 2.1-2.2, 4 (C09)"),
 }
 
@@ -105,7 +105,7 @@ def main():
             "add_only": True,
         },
         "engines": [
-            {"name": "shuttle-on-rayon-core-sim", "path": "sim/rayon-core-sim, sim/harness/src/simrt.rs", "serves_properties": ["C09", "C08"], "kind_free_text": "real walrus+rayon+id-arena on a stub rayon-core whose fork-join runs on shuttle coroutines under a seeded scheduler owned by the harness (random / sticky / PCT-like / lowest), recorded and replayable"},
+            {"name": "shuttle-on-rayon-core-sim", "path": "sim/rayon-core-sim, sim/harness/src/simrt.rs", "serves_properties": ["C09", "C08"], "kind_free_text": "real walrus+rayon+id-arena on a stub rayon-core whose fork-join runs on shuttle coroutines under a seeded scheduler owned by the harness (random / sticky / PCT-like / lowest / bursty), recorded and replayable; the parallel walrus build is compiled with SanitizerCoverage (edges) and the ThreadSanitizer pass restricted to atomics, both calling into the harness as scheduling points; libc `syscall` is interposed so that futex waits yield to the scheduler (deadlock = no-progress streak)"},
             {"name": "lifecycle-simulator", "path": "sim/harness/src/scen/all.rs, sim/harness/src/life.rs", "serves_properties": ["C02", "C08", "C12", "C14", "C17"], "kind_free_text": "seeded operation histories over Module values against reference models, with ambient perturbation (hash entropy, arena counter, heap layout, process boundary) and I/O faults"},
             {"name": "storage-fault-injector", "path": "sim/harness/src/faults.rs", "serves_properties": ["C05", "C14"], "kind_free_text": "structure-aware faults on stored module bytes plus resource faults (default thread stack, address-space cap, watchdog) in crash-isolated worker processes"},
         ],
